@@ -58,3 +58,11 @@ claim("C18", "loaders of every enum/flag representation provider are executed sy
       note=NOTE + " C18-specific: bounded over the enum/flag class family and name-mapping configurations (printed); the "
                   "round-trip part is exhaustive enumeration per class (labelled bounded); name-style conversion is exercised, "
                   "not proved injective.")
+
+claim("C15", "`_dedup` (the de-duplication used for union members and, typed, for literal arguments) proved for all sequences with "
+             "an inductive invariant (sound, complete, no duplicates w.r.t. the equality used); the canonical-form behaviour of "
+             "normalize_type on live typing objects is decided by a bounded enumeration of meaning-preserving / meaning-changing "
+             "rewrites, idempotence and implicit parameters",
+      note=NOTE + " C15-specific: the dispatch of TypeNormalizer over live `typing` objects is reflection and stays outside the "
+                  "contracts; it is covered only by the bounded rewrite enumeration (labelled bounded in the evidence, not counted "
+                  "as proved). Ordering helpers (_order_args/_make_orderable) are not under contract.")
